@@ -38,7 +38,111 @@ def undo_cap():
     return out
 
 
+COMPILE_FUNCS = {"compile_file", "compile_string", "parse_file", "parse", "resolve_includes", "create_browser_bundle"}
+
+
+def entry_points():
+    """which compile functions each CLI entry point that accepts a .bard file calls"""
+    out = []
+    for rel, funcs in (("bardic/cli/main.py", ["compile", "play", "bundle"]), ("bardic/cli/bundler.py", ["create_browser_bundle"])):
+        tree = ast.parse(open(os.path.join(REPO, rel)).read())
+        for node in ast.walk(tree):
+            if isinstance(node, ast.FunctionDef) and node.name in funcs:
+                calls = []
+                for n in ast.walk(node):
+                    if isinstance(n, ast.Call):
+                        f = n.func
+                        name = f.attr if isinstance(f, ast.Attribute) else (f.id if isinstance(f, ast.Name) else None)
+                        if name in COMPILE_FUNCS and name != node.name:
+                            calls.append((name, n.lineno))
+                out.append((f"{rel}:{node.name}", calls))
+    return out
+
+
+LINE_FUNCS = {"parse_render_line", "parse_input_line", "parse_content_line", "parse_passage_params",
+              "validate_passage_name", "validate_choice_syntax"}
+
+
+def _norm_line_expr(e):
+    """normalise a `line_num=` expression to (base, offset): the base is a name standing for the
+    0-based index of the construct's line, the offset what is added to it"""
+    if isinstance(e, ast.Name):
+        return e.id, 0
+    if isinstance(e, ast.Constant) and isinstance(e.value, int):
+        return "const", e.value
+    if isinstance(e, ast.BinOp) and isinstance(e.op, (ast.Add, ast.Sub)):
+        lb, lo = _norm_line_expr(e.left)
+        rb, ro = _norm_line_expr(e.right)
+        sign = 1 if isinstance(e.op, ast.Add) else -1
+        if rb == "const":
+            return lb, lo + sign * ro
+        if lb == "const":
+            return rb, lo + ro
+        return f"{lb}+{rb}", lo + sign * ro
+    return ast.unparse(e), 0
+
+
+def error_sites():
+    """every format_error(...) call of the parsing package with its line_num expression, and every call that
+    forwards a line index to a function which reports it"""
+    sites, forwards = [], []
+    base = os.path.join(REPO, "bardic", "compiler", "parsing")
+    for fn in sorted(os.listdir(base)):
+        if not fn.endswith(".py"):
+            continue
+        src = open(os.path.join(base, fn)).read()
+        tree = ast.parse(src)
+        for func in [n for n in ast.walk(tree) if isinstance(n, ast.FunctionDef)]:
+            # local definitions such as `error_line = i + (e.lineno - 1 ...)`: keep the leading index term
+            for n in ast.walk(func):
+                if isinstance(n, ast.Call):
+                    f = n.func
+                    name = f.attr if isinstance(f, ast.Attribute) else (f.id if isinstance(f, ast.Name) else None)
+                    if name == "format_error":
+                        for kw in n.keywords:
+                            if kw.arg == "line_num":
+                                b, o = _norm_line_expr(kw.value)
+                                sites.append((fn, n.lineno, func.name, b, o))
+                    elif name in LINE_FUNCS and len(n.args) >= 2:
+                        b, o = _norm_line_expr(n.args[1])
+                        if not (b == "const"):
+                            forwards.append((fn, n.lineno, func.name, name, b, o))
+    # nested helper functions are visited twice by ast.walk over FunctionDefs: de-duplicate
+    return sorted(set(sites)), sorted(set(forwards))
+
+
 def regenerate():
+    sites, forwards = error_sites()
+    def qq(x):
+        return '"' + str(x).replace('"', "'") + '"'
+    _write("ErrorSites.lean",
+           "/-! GENERATED by harness/extract.py from /repo on every run — do not edit. -/\n"
+           "namespace Bardic.Extracted\n\n"
+           "/-- every `format_error(...)` call site: (file, line, function, index expression, offset added to it) -/\n"
+           "def errorSites : List (String × Nat × String × String × Int) := [\n" +
+           ",\n".join(f"  ({qq(a)}, {b}, {qq(c)}, {qq(d)}, {e})" for a, b, c, d, e in sites) + "\n]\n\n"
+           "/-- every call forwarding a line index to a reporting function: (file, line, caller, callee, expression, offset) -/\n"
+           "def lineForwards : List (String × Nat × String × String × String × Int) := [\n" +
+           ",\n".join(f"  ({qq(a)}, {b}, {qq(c)}, {qq(d)}, {qq(e)}, {f})" for a, b, c, d, e, f in forwards) + "\n]\n\n"
+           "end Bardic.Extracted\n")
+    eps = entry_points()
+    def q(x):
+        return '"' + x + '"'
+    text = ("/-! GENERATED by harness/extract.py from /repo on every run — do not edit. -/\n"
+            "namespace Bardic.Extracted\n\n"
+            "/-- compile functions called by each CLI entry point that accepts a `.bard` file (with source lines) -/\n"
+            "def entryPoints : List (String × List String) := [\n" +
+            ",\n".join(f"  ({q(n)}, [{', '.join(q(c) for c, _ in calls)}])  -- lines {[l for _, l in calls]}" for n, calls in eps) +
+            "\n]\n\nend Bardic.Extracted\n")
+    # put the commas before the comments
+    lines = text.split("\n")
+    fixed = []
+    for l in lines:
+        if "])  -- lines" in l and l.rstrip().endswith(","):
+            l = l.rstrip()[:-1]
+            l = l.replace("])  -- lines", "]),  -- lines")
+        fixed.append(l)
+    _write("EntryPoints.lean", "\n".join(fixed))
     caps = undo_cap()
     def lst(vs):
         return "[" + ", ".join("none" if v is None else f"some {v}" for v, _ in vs) + "]"
